@@ -786,6 +786,12 @@ func validationOnlyFailure(fn *ssa.Function) bool {
 			continue
 		}
 		any = true
+		// a wrapper that returns the error of a validation-only-failing callee (setFileTxn -> setFileTxnHandler)
+		if cl := callProducing(e); cl != nil {
+			if callee := ssax.StaticCallee(cl); callee != nil && callee != fn && validationOnlyFailure(callee) {
+				continue
+			}
+		}
 		dom := false
 		for _, f := range ssax.FactsAtInstr(r) {
 			if cl, ok := f.Cond.(*ssa.Call); ok && !f.Val && isValidPathCall(cl) {
